@@ -172,11 +172,15 @@ class Frames(Hooks):
         if k == 'cast':
             return self.frame(A, env, c[0])
         if k == 'ref':
+            if n['decl'].get('id') in self.hs_vars:
+                return one(NEUTRAL), one('hs')
             key = A.path(e, env)
             return fr.get(key), un.get(key)
         if k == 'member':
             f = n.get('field')
             rec = n.get('record')
+            if f == 'halfrate_flag':
+                return one(NEUTRAL), one('hs')
             if rec == 'OggVorbis_File' and f == 'pcm_offset':
                 key = A.path(e, env)
                 if key in fr:
@@ -274,7 +278,13 @@ class Frames(Hooks):
             if ua and ub and ua != ub and 'hs' not in ua | ub:
                 self._uerr(A, (e, f'{self.F.s(e)}: adds/subtracts a quantity in {sorted(ua)} and one in {sorted(ub)} without the '
                                          'half-rate shift'))
+            if ua and ub and (ua == one('hs')) != (ub == one('hs')) and (ua | ub) & {'S', 'D'}:
+                self._uerr(A, (e, f'{self.F.s(e)}: the half-rate flag is added to / subtracted from a sample count (the conversion '
+                                  'between stream and output samples is the plain shift; a rounding term changes which samples are '
+                                  'trimmed)'))
             u = ua or ub
+            if u == one('hs') and (ua and ub):
+                u = (ua | ub) - {'hs'} or u
             return self.affine(A, env, e, op, fa, fb), u
         if op in ('<', '>', '<=', '>=', '==', '!='):
             if fa and fb:
